@@ -1,7 +1,7 @@
 (** Prop_C07.v -- C07: a nameplate lives exactly as long as someone holds it.
     Statements quoted by type from NpFactsA.v / NpFactsB.v (printed by [Check]). *)
 From MW Require Import Base Store Monad Usage Server Websocket Service Findings Inv Obs
-     ProtoFacts StepFacts SweepFacts NpFactsA NpFactsB Inst_Params.
+     ProtoFacts StepFacts SweepFacts NpFactsA NpFactsB Inst_Params CrashLife.
 Local Open Scope list_scope.
 
 (** a side's claim on a nameplate is ended by NOTHING but its own release of that
@@ -47,6 +47,21 @@ Print Assumptions C07_free_iff_unlisted.
 
 
 (** two sides hold "4"; the first release keeps it, the second removes it *)
+(** ** every event, crashes at any commit boundary included (CrashLife.v): a side's claim is
+    ended by nothing but its own release of that nameplate -- completed, or cut short by a
+    crash after its first commit ([crash_inside_own_release_ends_claim] shows that case is
+    needed) -- or the deletion of the nameplate's mailbox *)
+Theorem C07_holder_stable_all : ltac:(let t := type of holder_stable_all in exact t).
+Proof. exact holder_stable_all. Qed.
+Check C07_holder_stable_all.
+Print Assumptions C07_holder_stable_all.
+
+Example C07_crashed_claim_survives : ltac:(let t := type of crashed_claim_survives in exact t).
+Proof. exact crashed_claim_survives. Qed.
+Example C07_crash_inside_own_release_ends_claim : ltac:(let t := type of crash_inside_own_release_ends_claim in exact t).
+Proof. exact crash_inside_own_release_ends_claim. Qed.
+
+
 Example C07_nonvacuous :
   let d := mkChan [mkNp 1 "a" "4" "mb"] [mkNps 1 true "s1" 5; mkNps 1 true "s2" 6]
                   [mkMb "a" "mb" 7 true] [] [] 1 in
